@@ -39,7 +39,7 @@ def apply_contract(ip, contract, info, args, kwargs):
     for label, fn in contract.requires.items():
         ctx.oblige('callsite-pre:%s/%s' % (site, label), ops.bterm(_b(call_clause(fn, env))))
     old = Snapshot(ip, argmap)
-    env['old'] = NS(dict(old.roots, ghost=NS(old.ghost)))
+    env['old'] = NS(dict(old.roots, ghost=NS(old.ghost), _snap=old))
     # exceptional exits
     for label, (excname, cond) in contract.raises.items():
         c = _b(call_clause(cond, env))
